@@ -86,6 +86,49 @@ instance {α} [ToVal α] : ToVal (List α) := ⟨fun l => Val.ofList (l.map ToVa
 instance {α} [ToVal α] : ToVal (Option α) :=
   ⟨fun o => match o with | some v => Val.some (ToVal.toVal v) | none => Val.none⟩
 
+instance : ToVal Nat := ⟨fun n => Val.int n⟩
+
+/-- How a `Val` is read back as a typed Rust value (closures the library supplies work on typed accumulators:
+    `Option<Item>`, `(Item, usize)`, `bool`, `usize`; the operators carry them as items, i.e. as `Val`).  A value of
+    the wrong shape reads as a default — the tie theorems show that only well-shaped values ever flow. -/
+class FromVal (α : Type) where
+  fromVal : Val → α
+instance : FromVal Val := ⟨id⟩
+instance : FromVal Bool := ⟨fun v => match v with | Val.bool b => b | _ => false⟩
+instance : FromVal Nat := ⟨fun v => match v with | Val.int i => i.toNat | _ => 0⟩
+instance {α} [FromVal α] : FromVal (Option α) :=
+  ⟨fun v => match v with | Val.some x => some (FromVal.fromVal x) | _ => none⟩
+instance {α β} [FromVal α] [FromVal β] : FromVal (α × β) :=
+  ⟨fun v => match v with
+    | Val.pair a b => (FromVal.fromVal a, FromVal.fromVal b)
+    | _ => (FromVal.fromVal Val.unit, FromVal.fromVal Val.unit)⟩
+
+/-- a typed closure seen by an operator that carries `Val` items -/
+def enc1 {α β} [FromVal α] [ToVal β] (f : α → β) : Val → Val := fun v => ToVal.toVal (f (FromVal.fromVal v))
+def enc2 {α β γ} [FromVal α] [FromVal β] [ToVal γ] (f : α → β → γ) : Val → Val → Val :=
+  fun a b => ToVal.toVal (f (FromVal.fromVal a) (FromVal.fromVal b))
+def encPred {α} [FromVal α] (p : α → Bool) : Val → Bool := fun v => p (FromVal.fromVal v)
+
+/-- `f64` values the library computes with (`1.0 / (n as f64)`), kept symbolic -/
+inductive F64 where
+  | lit (s : String)
+  | ofNat (n : Nat)
+  | div (a b : F64)
+  deriving DecidableEq, Repr
+
+/-- What the user's item type contributes to the derived operators: `Add`, `PartialOrd` (`>` / `<`), `Default`,
+    `Mul<f64>`. -/
+structure ItemOps where
+  add : Val → Val → Val
+  gt : Val → Val → Bool
+  lt : Val → Val → Bool
+  dflt : Val
+  mulf : Val → F64 → Val
+
+/-- `o.unwrap()` inside a closure handed to `map`: a panic is not expressible in `Op1.map`, the default stands in
+    for it; the tie theorems of min / max show the option is never `None` where it is unwrapped. -/
+def unwrapP {α} [Inhabited α] (o : Option α) : α := o.getD default
+
 /-- `observer.next(v)` -/
 def emitNext {α} [ToVal α] (_ : Obs) (v : α) : Out := [Ev.n (Notif.next (ToVal.toVal v))]
 /-- `observer.error(e)` -/
